@@ -137,7 +137,7 @@ CLAIMS = {
                  "graphemes; the only panic (selection ending past the text) is excluded by the selection-inside-text invariant, with the pre-fix witness kept. "
                  "Every run feeds the real read_field's own (start cursor, post text, real segmentation, end cursor, selection) to the model and compares the field, "
                  "checks that motion/selection/yank commands leave the text byte-identical, and checks the field against the cursor-span / whole-line specification.",
-        "note": NOTE_COMMON + " PARTIAL: 'passive commands keep the text' is checked on the implementation for every generated command (and thorough: exhaustively on a small scope) but is not yet a theorem about the editor model; for text objects the selected text is the editor's own select_range; for block selections it is additionally computed from the two cursors alone (the rectangle between them, each row cut at its line's last character), corners on line terminators included (fix 673f6a4 made that true).",
+        "note": NOTE_COMMON + " PARTIAL: 'passive commands keep the text' is checked on the implementation for every generated command (and thorough: exhaustively on a small scope) but is not yet a theorem about the editor model; for text objects the selected text is the editor's own select_range; for block selections it is additionally computed from the two cursors alone (the rectangle between them, each row cut at its line's last character), corners on line terminators included (fix 673f6a4 made that true). get_block_select_windows is modelled (Model/Block.lean): every window is the row of one line between the anchor's and the cursor's, ordered, inside its line, no wider than the rectangle, never taking the line's terminator; the model's windows are compared with the editor's own on every block case.",
         "technique": "Lean 4 proof parametric in the key engine (quantified over cursors, text and selection) + correspondence at read_field's boundary through the session hook",
     },
     "C18": {
